@@ -153,6 +153,12 @@ func checkRoundTrip(r *core.Run, dialect, stmt, source string) bool {
 		return false
 	}
 	kind := stmtKind(stmt)
+	if word == "reparse-fails" && strings.HasPrefix(dialect, "my") && hasIntervalString(dialect, stmt) {
+		// known: Acra's grammar takes INTERVAL '<string>' only as the PostgreSQL form and rejects it in the MySQL
+		// dialect; a MySQL string written in double quotes is accepted and then printed in single quotes
+		r.Fail("roundtrip-reparse-fails:mysql-interval-string", fmt.Sprintf("[%s] %s ⇒ %s", dialect, trunc(stmt), trunc(decodePrinted(out))))
+		return true
+	}
 	if kind != "dml" {
 		// the property quantifies over data-manipulation statements; DDL, SHOW, EXPLAIN, PREPARE … are printed
 		// in a reduced form by design ("otherread", "alter table a")
@@ -161,6 +167,44 @@ func checkRoundTrip(r *core.Run, dialect, stmt, source string) bool {
 	}
 	r.Fail("roundtrip-"+word+":"+kind, fmt.Sprintf("Parse(String(Parse s)) ≠ Parse s [%s, %s]: %s  ⇒ %s", dialect, source, trunc(stmt), trunc(decodePrinted(out))))
 	return true
+}
+
+// checkSubst: value substitution through the real encryptor code, then print and re-parse.
+func checkSubst(r *core.Run, dialect, stmt string) {
+	var out string
+	if dialect == "pg" {
+		out = r.Impl(fmt.Sprintf("C13.pgsubst %s %d", hexS(stmt), r.Rand.Intn(1<<30)))
+	} else {
+		out = r.Impl(fmt.Sprintf("C13.subst %s %s %d", dialect, hexS(stmt), r.Rand.Intn(1<<30)))
+	}
+	word := out
+	if i := strings.IndexByte(out, ' '); i >= 0 {
+		word = out[:i]
+	}
+	r.Tag("subst:" + word + ":" + dialect)
+	switch word {
+	case "same", "unparseable", "nothing":
+		return
+	}
+	r.Fail("subst-"+word+":"+dialect, fmt.Sprintf("after value substitution the printed statement does not parse back to the substituted tree [%s]: %s ⇒ %s", dialect, trunc(stmt), trunc(decodePrinted(out))))
+}
+
+func checkPgRoundTrip(r *core.Run, stmt, source string) {
+	out := r.Impl("C13.pgroundtrip " + hexS(stmt))
+	word := out
+	if i := strings.IndexByte(out, ' '); i >= 0 {
+		word = out[:i]
+	}
+	r.Tag("pgroundtrip:" + word)
+	switch word {
+	case "same", "unparseable":
+		return
+	}
+	if stmtKind(stmt) != "dml" {
+		r.Tag("pg-non-dml-" + word)
+		return
+	}
+	r.Fail("pgroundtrip-"+word, fmt.Sprintf("pg_query: Parse(Deparse(Parse s)) ≠ Parse s [%s]: %s ⇒ %s", source, trunc(stmt), trunc(decodePrinted(out))))
 }
 
 func decodePrinted(out string) string {
@@ -321,6 +365,12 @@ func runStatements(r *core.Run) {
 			r.Begin("table:"+d+":"+s, true, "stream:structured", "dialect:"+d)
 			if checkRoundTrip(r, d, s, "test-table") {
 				parsed++
+				if stmtKind(s) == "dml" {
+					checkSubst(r, d, s)
+					if d == "pg" {
+						checkPgRoundTrip(r, s, "test-table")
+					}
+				}
 				if d != "myansi" && len(pool) < 4000 {
 					pool = append(pool, harvest(d, s)...)
 				}
@@ -339,11 +389,34 @@ func runStatements(r *core.Run) {
 			for k := 0; k < r.N(3, 12); k++ {
 				stmt, _, _ := c16.Instantiate(t, d, rd, nil)
 				r.Begin("tpl:"+d+":"+stmt, true, "stream:structured", "dialect:"+d, "pos:"+t.Pos)
-				if checkRoundTrip(r, d, stmt, "template") && len(pool) < 6000 {
-					pool = append(pool, harvest(d, stmt)...)
+				if checkRoundTrip(r, d, stmt, "template") {
+					if len(pool) < 6000 {
+						pool = append(pool, harvest(d, stmt)...)
+					}
+					checkSubst(r, d, stmt)
+					if d == "pg" {
+						checkPgRoundTrip(r, stmt, "template")
+					}
 				}
 			}
 		}
+	}
+	// (b2) substitution-heavy: INSERT / UPDATE / REPLACE forms with every literal spelling
+	var writes []c16.Template
+	for _, t := range c16.Templates {
+		if strings.HasPrefix(t.Text, "insert") || strings.HasPrefix(t.Text, "update") || strings.HasPrefix(t.Text, "replace") {
+			writes = append(writes, t)
+		}
+	}
+	for i := 0; i < r.N(600, 20000); i++ {
+		t := core.Pick(rd, writes)
+		d := core.Pick(rd, dialects)
+		if t.Dialect != "" && !strings.HasPrefix(d, strings.TrimSuffix(t.Dialect, "!")) {
+			continue
+		}
+		stmt, _, _ := c16.Instantiate(t, d, rd, nil)
+		r.Begin("subst:"+d+":"+stmt, true, "stream:structured", "dialect:"+d, "pos:"+t.Pos)
+		checkSubst(r, d, stmt)
 	}
 	// (c) splices: printed sub-expressions of accepted statements into every expression position
 	pool = dedup(pool)
@@ -385,7 +458,14 @@ func runStatements(r *core.Run) {
 		stmt := sb.String()
 		d := core.Pick(rd, []string{"my", "pg"})
 		r.Begin("splice:"+d+":"+stmt, true, "stream:structured", "dialect:"+d)
-		checkRoundTrip(r, d, stmt, "splice")
+		if checkRoundTrip(r, d, stmt, "splice") {
+			if strings.HasPrefix(stmt, "update") || strings.HasPrefix(stmt, "insert") {
+				checkSubst(r, d, stmt)
+			}
+			if d == "pg" && i%4 == 0 {
+				checkPgRoundTrip(r, stmt, "splice")
+			}
+		}
 	}
 }
 
